@@ -125,9 +125,26 @@ package keeper
 //@ loop 2 invariant [bank_untouched_so_far] bank.bal == old(bank.bal) && reporter.FeePaidFromStake == old(reporter.FeePaidFromStake)
 //@ loop 2 invariant [tracked_total_is_what_was_unbonded] totalTrackedAmount == retsum(Unbond, 0)
 
+// ---- escrowing the slashed share of a disputed report (C11, C05) ----
+// srec: the stake record written when the report was submitted. Every backer's share is rounded; the difference to
+// the slash amount ("leftover") goes to the last backer, so the recorded parts add up to the slash amount exactly.
+//@ define srec(q, r, h) = reporter.Report[pair(bytes(q), pair(bytes(r), h))]
+
 //@ func (k Keeper).EscrowReporterStake(ctx, reporterAddr, power, height, amt, queryId, hashId) (err)
-//@ trusted
-//@ modifies reporter.*, staking.*, bank.bal
+//@ uses sum_congruence
+//@ requires [amount_non_negative] amt >= 0
+//@ requires [stated_power_positive] power >= 1 && power < 9223372036854775808
+//@ requires [stake_record_well_formed] has(reporter.Report, pair(bytes(queryId), pair(bytes(reporterAddr), height))) ==> forall j in [0, len(srec(queryId, reporterAddr, height).TokenOrigins)) :: srec(queryId, reporterAddr, height).TokenOrigins[j] != nil && srec(queryId, reporterAddr, height).TokenOrigins[j].Amount >= 0
+//@ requires [validators_have_delegator_shares] forall v bytes :: has(staking.validators, v) ==> staking.validators[v].DelegatorShares > 0
+//@ modifies reporter.DisputedDelegationAmounts, staking.*, bank.bal, H_*, A_*
+//@ ensures [needs_the_stake_record_of_the_report] !old(has(reporter.Report, pair(bytes(queryId), pair(bytes(reporterAddr), height)))) ==> err != nil && nothing_written()
+//@ ensures [recorded_total_is_the_slash_amount] err == nil ==> has(reporter.DisputedDelegationAmounts, bytes(hashId)) && drec(hashId).Total == amt
+//@ ensures [recorded_parts_add_up_to_the_slash_amount] err == nil && len(old(srec(queryId, reporterAddr, height)).TokenOrigins) > 0 ==> tsum(drec(hashId).TokenOrigins, len(drec(hashId).TokenOrigins)) == amt
+//@ ensures [only_pools_and_escrow_touched] forall a addr :: a != module("dispute") && a != module("bonded_tokens_pool") && a != module("not_bonded_tokens_pool") ==> bank.bal[a] == old(bank.bal[a])
+//@ loop 0 "for i, del := range report.TokenOrigins"
+//@ loop 0 invariant [recorded_so_far_plus_leftover_is_the_slash_amount] (i < len(report.TokenOrigins) ==> tsum(disputeTokens, len(disputeTokens)) == amt - leftover) && (i == len(report.TokenOrigins) && i > 0 ==> tsum(disputeTokens, len(disputeTokens)) == amt) && forall j in [0, len(disputeTokens)) :: allocated(disputeTokens[j])
+//@ loop 0 invariant [only_pools_and_escrow_touched] forall a addr :: a != module("dispute") && a != module("bonded_tokens_pool") && a != module("not_bonded_tokens_pool") ==> bank.bal[a] == old(bank.bal[a])
+//@ loop 0 invariant [no_record_written_yet] reporter.DisputedDelegationAmounts == old(reporter.DisputedDelegationAmounts)
 
 // ---- following disputed stake into unbonding entries (C11, C05) ----
 // ubal(s, n) is the total balance of the first n unbonding entries of s; tokens0 is the value of the parameter
@@ -206,6 +223,7 @@ package keeper
 //@ ensures [only_what_the_delegation_could_not_cover_is_taken_from_unbonding_entries] called(deductUnbondingDelegation) ==> arg(deductUnbondingDelegation, tokens) == dectrunc(ret(deductFromdelegation, 0)) && ret(deductFromdelegation, 0) != 0
 //@ ensures [covered_by_the_delegation_means_nothing_is_left] err == nil && ret(deductFromdelegation, 1) == nil && ret(deductFromdelegation, 0) == 0 ==> rest == 0 && !called(deductUnbondingDelegation)
 //@ ensures [only_pools_and_escrow_touched] forall a addr :: a != module("dispute") && a != module("bonded_tokens_pool") && a != module("not_bonded_tokens_pool") ==> bank.bal[a] == old(bank.bal[a])
+//@ ensures [rest_is_non_negative] err == nil ==> rest >= 0
 
 // ---- switching reporters (C10) ----
 // GetReporterTokensAtBlock reads the reporter's latest stake record (reverse index, not modelled): trusted read.
